@@ -42,6 +42,7 @@ struct Link {
     open: bool,
     sent: u64,
     back: u64,
+    is_primary: bool, // opened by add_secondary_to_primary (its thread removes the member when it ends)
 }
 
 /// A call into the node that may block in an election wait loop runs on a thread of its own;
@@ -102,6 +103,7 @@ fn resume_co(co: &Arc<Co>) {
 enum FrameKind {
     Deliver(usize, String),
     Cmd(usize, usize),
+    Fake, // the fake client of a disconnect ("leave"): nobody waits for its answer
 }
 
 struct Frame {
@@ -119,6 +121,7 @@ struct Cluster {
     busy_sessions: Vec<(usize, usize)>,
     last_cmd: Vec<String>,
     links_base: u64, // link threads spawned before this case began
+    dead_nodes: Vec<usize>,
 }
 
 fn poll(f: &mut Option<Fut>) -> bool {
@@ -193,6 +196,7 @@ impl Cluster {
                     open: true,
                     sent: 0,
                     back: 0,
+                    is_primary: l.is_primary,
                 });
             }
             // every link thread the supervisors spawned has registered (spawns are counted synchronously)
@@ -330,6 +334,7 @@ impl Cluster {
                         self.busy_links.retain(|x| *x != li);
                         let _ = self.finish_deliver(li, &line, out);
                     }
+                    FrameKind::Fake => {}
                     FrameKind::Cmd(ni, sid) => {
                         let (ni, sid) = (*ni, *sid);
                         self.busy_sessions.retain(|x| *x != (ni, sid));
@@ -403,10 +408,14 @@ impl Cluster {
                 return (rounds, false);
             }
             for i in 0..self.nodes.len() {
-                self.poll_sup(i);
+                if !self.dead_nodes.contains(&i) {
+                    self.poll_sup(i);
+                }
             }
             for i in 0..self.nodes.len() {
-                self.poll_repl(i);
+                if !self.dead_nodes.contains(&i) {
+                    self.poll_repl(i);
+                }
             }
             let mut moved = false;
             let mut order: Vec<usize> = (0..self.links.len()).filter(|&i| self.links[i].open).collect();
@@ -454,6 +463,73 @@ impl Cluster {
         std::thread::sleep(std::time::Duration::from_millis(5));
     }
 
+    /// the node dies: end-of-file on every connection it had opened, and the link threads of the
+    /// others towards it end
+    fn kill(&mut self, xi: usize) {
+        let name = self.nodes[xi].name.clone();
+        for li in 0..self.links.len() {
+            if self.links[li].open && self.links[li].from == name {
+                self.eof(li);
+            }
+        }
+        for li in 0..self.links.len() {
+            if self.links[li].open && self.links[li].to == name {
+                self.links[li].open = false;
+                nundb::verif_hooks::close_link(self.links[li].id);
+                if self.links[li].is_primary {
+                    // add_secondary_to_primary's thread removes the member when start_replication returns
+                    let fi = self.idx(&self.links[li].from.clone());
+                    let dbs = self.nodes[fi].dbs.clone();
+                    let deadline = std::time::Instant::now() + std::time::Duration::from_millis(2000);
+                    while dbs.has_cluster_memeber(&name) && std::time::Instant::now() < deadline {
+                        std::thread::sleep(std::time::Duration::from_millis(1));
+                    }
+                }
+            }
+        }
+        self.dead_nodes.push(xi);
+    }
+
+    /// network/tcp_ops.rs::handle_client on end-of-file
+    fn eof(&mut self, li: usize) {
+        let ti = self.idx(&self.links[li].to.clone());
+        self.enter(ti);
+        let dbs = self.nodes[ti].dbs.clone();
+        let dir = self.nodes[ti].dir.clone();
+        let member = {
+            let l = &mut self.links[li];
+            let _ = std::panic::catch_unwind(std::panic::AssertUnwindSafe(|| process_request("unwatch-all", &dbs, &mut l.server.0)));
+            let _ = drain_rx(&mut l.server.1);
+            let m = l.server.0.cluster_member.lock().unwrap().clone();
+            m
+        };
+        if let Some(m) = member {
+            let msg = match m.role {
+                ClusterRole::Primary => format!("leave {}", m.name),
+                _ => format!("replicate-leave {}", m.name),
+            };
+            let (mut fake, frx) = Client::new_empty_and_receiver();
+            fake.auth.store(true, Ordering::Relaxed);
+            let dbs2 = dbs.clone();
+            let (co, h) = run_co(
+                dir,
+                Box::new(move || {
+                    let r = std::panic::catch_unwind(std::panic::AssertUnwindSafe(|| process_request(&msg, &dbs2, &mut fake)));
+                    (fake, frx, r.ok())
+                }),
+            );
+            if wait_co(&co) {
+                let _ = h.join();
+            } else {
+                self.frames.push(Frame { co, handle: Some(h), kind: FrameKind::Fake });
+            }
+        }
+        let l = &mut self.links[li];
+        l.server.0.left(&dbs);
+        l.open = false;
+        nundb::verif_hooks::close_link(l.id);
+    }
+
     fn refill(&mut self) {
         for l in self.links.iter_mut() {
             while let Ok(Some(m)) = l.rx.try_next() {
@@ -464,7 +540,11 @@ impl Cluster {
 
     fn dump(&self) -> String {
         let mut out = String::new();
-        for n in &self.nodes {
+        for (ni, n) in self.nodes.iter().enumerate() {
+            if self.dead_nodes.contains(&ni) {
+                out.push_str(&format!(" node={} GONE", n.name));
+                continue;
+            }
             nundb::verif_hooks::set_data_dir(Some(n.dir.clone()));
             let role = match n.dbs.get_role() {
                 ClusterRole::Primary => "P",
@@ -573,7 +653,7 @@ pub fn run(path: &str, workdir: &str) {
     for case in read_cases(path) {
         out.line(&format!("C {}", case.id));
         let _ = nundb::verif_hooks::take_links();
-        let mut cl = Cluster { nodes: Vec::new(), links: Vec::new(), crossings: 0, frames: Vec::new(), busy_links: Vec::new(), busy_sessions: Vec::new(), last_cmd: Vec::new(), links_base: nundb::verif_hooks::links_spawned() };
+        let mut cl = Cluster { nodes: Vec::new(), links: Vec::new(), crossings: 0, frames: Vec::new(), busy_links: Vec::new(), busy_sessions: Vec::new(), last_cmd: Vec::new(), links_base: nundb::verif_hooks::links_spawned(), dead_nodes: Vec::new() };
         let mut notices: HashMap<(usize, usize), Vec<String>> = HashMap::new();
         // header: name:role:pid ...
         for (i, h) in case.header.iter().filter(|h| h.contains('/')).enumerate() {
@@ -597,6 +677,17 @@ pub fn run(path: &str, workdir: &str) {
                     cl.client_cmd(i, sid, &line)
                 }
                 "tick" => format!("Ticked {}", cl.tick_frames()),
+                "kill" => {
+                    // only at a moment when no connection handler is blocked in an election (a blocked handler would
+                    // notice the end-of-file only when it returns)
+                    if !cl.frames.is_empty() {
+                        "NotQuiescent".to_string()
+                    } else {
+                        let i = cl.idx(&op[1]);
+                        cl.kill(i);
+                        "Killed".to_string()
+                    }
+                }
                 "rsv" => {
                     // the arbiter (a client of node op[1]) answers the idx-th notice it received
                     let i = cl.idx(&op[1]);
